@@ -159,13 +159,6 @@ def isData (src : Node) (p0 : Packet) (j : Json) : Bool :=
     pure (q.fromNode == src && q.fromSvc == p0.fromSvc && q.toNode == p0.toNode && q.toSvc == p0.toSvc
           && q.body == p0.body)).toOption.getD false
 
-/-- order-insensitive comparison of two observations (the `_set` lists are multisets) -/
-partial def sortJson : Json → Json
-  | Json.arr xs => Json.arr ((xs.map sortJson).qsort fun a b => a.compress < b.compress)
-  | Json.obj kvs => Json.mkObj (kvs.toList.map fun (k, v) => (k, sortJson v))
-  | j => j
-def canonEq (a b : Json) : Bool := (sortJson a).compress == (sortJson b).compress
-
 def hasRules (a : Json) : Bool :=
   ((getArr a "nodes").toOption.getD []).any fun n => !((getArr n "rules").toOption.getD []).isEmpty
 
